@@ -271,7 +271,7 @@ pub fn build(seed: u64, tier: Tier) -> Corpus {
     }
     // grammars of the saved replays (regression tier)
     let mut files = vec![];
-    if let Ok(rd) = std::fs::read_dir(std::path::Path::new(crate::common::VERIF_ROOT).join("replays")) {
+    if let Ok(rd) = std::fs::read_dir(crate::common::verif_root().join("replays")) {
         for d in rd.flatten() {
             if let Ok(rd2) = std::fs::read_dir(d.path()) {
                 files.extend(rd2.flatten().map(|e| e.path()).filter(|p| p.extension().map(|x| x == "json").unwrap_or(false)));
